@@ -5,8 +5,9 @@ import Rivaas.Lemmas.PresenceLeaf
 Driver for C05. Case line (strings hex-encoded, lists as `n item…`):
 
   <id> J <json> R <n> { <path> <resolves> <n> { <tag> <n> <shown path>… }* <num> <cresolves> <cpanics> <n> <ctag>… }*
-       O <mode 0=partial 1=full> <maxErrors> <maxFields> <n> <redacted path>… <singleRule>
+       O <mode 0=partial 1=full 2=runAll 3=interface> <maxErrors> <maxFields> <n> <redacted path>… <singleRule>
        F <n> { <json path> <path as shipped> <tag> <n> <shown path>… }*
+       I <n> { <path> <code> }*        (what the type's Validate() method returns; modes 2 = all strategies, 3 = interface only)
     => PM <n> <path>… LV <n> <path>… V ( N | P | E <truncated> <n> { <path> <code> <hidden> }* )
        K <leak> D <deterministic>
 
@@ -47,6 +48,9 @@ structure Case where
   top : List (Bytes × Json)
   rules : List Rule
   full : Bool
+  mode : Nat
+  /-- the errors returned by the type's own `Validate()` method -/
+  iface : List FieldErr
   opts : Opts
   single : Bool
   fullErrs : List (Path × Viol)
@@ -69,7 +73,9 @@ def pCase : P Case := do
   let single ← bool
   lit "F"
   let fe ← list (do let p ← str; let ap ← str; let t ← pViol; pure (p, ap, t))
-  pure { top := top, rules := rules, full := mode == 1,
+  lit "I"
+  let ie ← list (do let p ← str; let c ← str; pure ({ path := p, code := c, hidden := false } : FieldErr))
+  pure { top := top, rules := rules, full := mode != 0, mode := mode, iface := ie,
          opts := { maxErrors := me, maxFields := mf, redacted := red }, single := single,
          fullErrs := fe.map fun (p, _, t) => (p, t), fullErrsAsIs := fe.map fun (_, ap, t) => (ap, t) }
 
@@ -129,12 +135,18 @@ def modelLeaves (pm : List Path) : List Path := leafPaths pm
     that the leaf list computed for the comparison is reused and the compiled code goes through the
     `@[csimp]` implementation of `leafPaths` (`Lemmas/PresenceLeaf.lean`) -/
 def modelValidate (c : Case) (leaves : List Path) : VObs :=
-  if c.full then .res (validateFull c.fullErrs c.opts)
+  if c.mode == 2 then .res (validateAll [coerce c.iface c.opts, validateFull c.fullErrs c.opts] c.opts)
+  else if c.mode == 3 then .res (coerce c.iface c.opts)
+  else if c.mode == 1 then .res (validateFull c.fullErrs c.opts)
   else .res (partialFrom mkErr leaves (ownTags c.rules) c.opts)
 
 /-- errors that ought to be reported, evaluated on the presence set the implementation reported -/
 def want (c : Case) (o : Obs) : List Want :=
-  if c.full then c.fullErrs.map fun (p, v) => ⟨p, tagPrefix ++ v.tag, v.shows⟩
+  let ifaceWant : List Want := c.iface.map fun e => ⟨e.path, e.code, []⟩
+  let tagWant : List Want := c.fullErrs.map fun (p, v) => ⟨p, tagPrefix ++ v.tag, v.shows⟩
+  if c.mode == 2 then ifaceWant ++ tagWant
+  else if c.mode == 3 then ifaceWant
+  else if c.mode == 1 then tagWant
   else expectedErrs o.pm c.rules c.opts
 
 def specOK (c : Case) (o : Obs) : Bool :=
